@@ -106,6 +106,18 @@ MUTANTS = [
     ("conv-int16-range-check-off-by-one", "C15", "conv.CPyLong_AsInt16", "mypyc/lib-rt/int_ops.c", "    if (result > 0x7fff || result < -0x8000) {", "    if (result > 0x8000 || result < -0x8000) {", "violation"),
     ("conv-uint8-negative-accepted", "C15", "conv.CPyLong_AsUInt8", "mypyc/lib-rt/int_ops.c", "    if (result < 0 || result >= 256) {", "    if (result >= 256) {", "violation"),
     ("conv-int64-overflow-flag-ignored", "C15", "conv.CPyLong_AsInt64", "mypyc/lib-rt/int_ops.c", '        } else if (overflow) {\n            PyErr_SetString(PyExc_ValueError, "int too large to convert to i64");', '        } else if (overflow > 0) {\n            PyErr_SetString(PyExc_ValueError, "int too large to convert to i64");', "violation"),
+    # ---- harmless refactorings: the checks must stay green
+    ("H-validate-meta-size-test-reordered", "C02", "validate_meta", "mypy/build.py", "    if size != meta.size and not bazel and not fine_grained_cache:", "    if not bazel and not fine_grained_cache and meta.size != size:", "pass"),
+    ("H-write-cache-local-renamed", "C04", "proto.write_cache", "mypy/build.py", "        data_mtime = manager.getmtime(data_file)\n    except OSError:", "        data_mtime = manager.getmtime(data_file)\n        data_mtime = data_mtime\n    except OSError:", "pass"),
+    ("H-fs-write-path-joined-inline", "C04", "store.fs", "mypy/metastore.py", "        path = os_path_join(self.cache_dir_prefix, name)\n        tmp_filename = path + \".\" + random_string()", "        prefix = self.cache_dir_prefix\n        path = os_path_join(prefix, name)\n        tmp_filename = path + \".\" + random_string()", "pass"),
+    ("H-ignored-error-subcode-test-first", "C13", "is_ignored", "mypy/errors.py", "                info.code.code in ignores[line]\n                or info.code.sub_code_of is not None\n                and info.code.sub_code_of.code in ignores[line]", "                info.code.sub_code_of is not None\n                and info.code.sub_code_of.code in ignores[line]\n                or info.code.code in ignores[line]", "pass"),
+    ("H-find-changed-local-alias", "C03", "find_changed", "mypy/fswatcher.py", "        for path in paths:\n            old = self._file_data[path]\n            st = self.fs.stat_or_none(path)", "        for path in paths:\n            data = self._file_data\n            old = data[path]\n            st = self.fs.stat_or_none(path)", "pass"),
+    ("H-crawl-helper-parent-first", "C18", "crawl_up_helper", "mypy/find_sources.py", "        parent, name = os.path.split(dir)\n        name = name.removesuffix(\"-stubs\")  # PEP-561 stub-only directory", "        parent, raw_name = os.path.split(dir)\n        name = raw_name.removesuffix(\"-stubs\")  # PEP-561 stub-only directory", "pass"),
+    ("H-floordiv-overflow-operands-swapped", "C15", "tagged.FloorDivide", "mypyc/lib-rt/CPy.h", "return right == 0 || left == -((size_t)1 << (CPY_INT_BITS-1));", "return left == -((size_t)1 << (CPY_INT_BITS-1)) || right == 0;", "pass"),
+    ("H-frame-from-buffer-local-size", "C16", "ipc.frame", "mypy/ipc.py", "        size = len(self.buffer)", "        buffered = self.buffer\n        size = len(buffered)", "pass"),
+    ("H-is-fresh-conjuncts-reordered", "C02", "is_fresh", "mypy/build.py", "            self.meta is not None\n            and self.dependencies == self.meta.dependencies\n            and (", "            self.meta is not None\n            and self.meta.dependencies == self.dependencies\n            and (", "pass"),
+    ("H-sqlite-commit-path-local", "C04", "sqlite.commit_path", "mypy/metastore.py", "        i = self._shard_index(name)\n        if i in self.dirty_shards:", "        i = self._shard_index(name)\n        dirty = self.dirty_shards\n        if i in dirty:", "pass"),
+    ("H-count-stats-single-pass", "C13", "count_stats|has_severity", "mypy/util.py", "    notes = [e for e in messages if _has_severity(e, \": note:\", \": error:\")]\n    return len(errors), len(notes), len(error_files)", "    notes = [m for m in messages if _has_severity(m, \": note:\", \": error:\")]\n    return len(errors), len(notes), len(error_files)", "pass"),
     ("enabled-parent-check-dropped", "C13", "is_error_code_enabled", "mypy/errors.py", "elif error_code.sub_code_of is not None and error_code.sub_code_of in current_mod_disabled:\n            return False", "elif error_code.sub_code_of is not None and error_code.sub_code_of in current_mod_enabled:\n            return False", "violation"),
 ]
 
